@@ -188,8 +188,9 @@ class MemPerDocReader(base.PerDocumentReader):
                    if fieldname in lens)
 
     def has_vector(self, docnum, fieldname):
+        # (a document whose field produced no terms has no vector)
         return (docnum in self._segment._vectors
-                and fieldname in self._segment._vectors[docnum])
+                and bool(self._segment._vectors[docnum].get(fieldname)))
 
     def vector(self, docnum, fieldname, format_):
         items = self._segment._vectors[docnum][fieldname]
